@@ -1485,6 +1485,28 @@ func (sc *scenario) runFork(maxOps int) {
 				}
 			}
 		}
+		// sometimes: an ODD number of neighbours, all but one on one lineage, one alone on another (the loner must not
+		// outvote a branch shared by half of the candidates, the host's own chain counting as a candidate)
+		if r.Intn(4) == 0 {
+			var others []*node.Node
+			for _, o := range nodes {
+				if o != host && len(o.AllBlocks()) >= 2 {
+					others = append(others, o)
+				}
+			}
+			if len(others) == 2 {
+				if r.Intn(2) == 0 {
+					others[0], others[1] = others[1], others[0]
+				}
+				cnt := pick(r, []int{3, 3, 5})
+				nb = nil
+				for j := 0; j < cnt-1; j++ {
+					nb = append(nb, trace.Serving(fmt.Sprintf("bloc%d", j), "bloc", others[0].AllBlocks(), S.BlocksLimit))
+				}
+				nb = append(nb, trace.Serving("loner", "loner", others[1].AllBlocks(), S.BlocksLimit))
+				r.Shuffle(len(nb), func(i, j int) { nb[i], nb[j] = nb[j], nb[i] })
+			}
+		}
 		v, _ := w.Sync(host, sc.clock, nb)
 		if m := v.Info["sync"]; m == "extension" || m == "resync" || m == "tipswap" {
 			sc.mark("adopted")
@@ -1494,6 +1516,46 @@ func (sc *scenario) runFork(maxOps int) {
 			grow(pick(r, nodes))
 		}
 	}
+}
+
+// profile "fork" (C06), structured part: three private lineages (own first blocks) grown on the same clock — the host
+// (3–4 blocks), a bloc lineage served by all neighbours but one, and a LONER lineage one block longer served by a
+// single neighbour; odd numbers of neighbours.  The loner is on a branch shared by fewer than half of the candidates
+// (the host's own chain is a candidate): the bloc's chain must win although the loner's is the longest.
+func (sc *scenario) runLoner() {
+	r := sc.rng
+	w := sc.w
+	S := w.S
+	a, b, c := w.Nodes[0], w.Nodes[1], w.Nodes[2]
+	sc.clock = T0
+	for _, n := range []*node.Node{a, b, c} {
+		w.Tick(n, sc.clock)
+	}
+	ha := 3 + r.Intn(2)
+	L := ha + 1 + r.Intn(3)
+	for i := 1; i <= L; i++ {
+		sc.clock += S.Interval
+		if i < ha {
+			w.Tick(a, sc.clock)
+		}
+		if i < L {
+			w.Tick(b, sc.clock)
+		}
+		w.Tick(c, sc.clock)
+	}
+	cnt := pick(r, []int{3, 3, 5})
+	var nb []trace.Neighbour
+	for j := 0; j < cnt-1; j++ {
+		nb = append(nb, trace.Serving(fmt.Sprintf("bloc%d", j), "bloc", b.AllBlocks(), S.BlocksLimit))
+	}
+	nb = append(nb, trace.Serving("loner", "loner", c.AllBlocks(), S.BlocksLimit))
+	r.Shuffle(len(nb), func(i, j int) { nb[i], nb[j] = nb[j], nb[i] })
+	if v, _ := w.Sync(a, sc.clock, nb); v != nil {
+		if m := v.Info["sync"]; m == "resync" {
+			sc.mark("adopted")
+		}
+	}
+	w.Read(a, 0)
 }
 
 // profile "alias" (C12), structured part: three nodes share a LONG prefix (lengths around Go's allocation size
@@ -2124,7 +2186,9 @@ func main() {
 				sc.run(ops)
 			}
 		case "fork":
-			switch rng.Intn(4) {
+			switch rng.Intn(5) {
+			case 4:
+				sc.runLoner()
 			case 0:
 				sc.runTips()
 			case 1, 2:
